@@ -680,6 +680,8 @@ def rule_helper_loop(ctx, rep):
         wq.worker_rules(rep, "C03.helper", h, None, "call_rcu_data.flags", "call_rcu_data.futex", "call_rcu_data.cbs_head", "call_rcu_data.cbs_tail", "rcu_head.func", FLG.STOP, tag=fl + ".helper")
 
 
+META["explanation"] += " " + 'Also (rounds 10-11): publish => wake on every path of _call_rcu (RT flag excepted), callbacks run on a registered (qsbr: online) helper, a helper is freed without hand-over only along an observed-empty edge.'
+
 RULES = [
     ("C03.helper", rule_helper_loop),
     ("C03.init", rule_init_before_thread),
